@@ -838,7 +838,10 @@ class TransferManager(BaseManager):
             was received
         :param request: transfer request object for the given transfer
         """
-        await transfer.state.initialize()
+        if not await transfer.state.initialize():
+            # The transfer got aborted, paused, ... between the moment the task
+            # was created and the moment it got hold of the transfer
+            return
 
         transfer.filesize = request.filesize
 
